@@ -19,6 +19,8 @@ type Case struct {
 	Files  []int  `json:"files"`  // statements per migration file (directory commands) / statements of the SQL schema
 	FailAt int    `json:"fail_at"` // global index of the failing statement (-1 = none)
 	Style  int    `json:"style"`   // 0 tables+indexes; 1 views first (view-only prefixes / end states); 2 tables, views on them and triggers
+	Ckpt   int    `json:"ckpt,omitempty"`   // directory commands: 1-based index of the file that is a checkpoint (0 = none); replay starts there
+	Latest int    `json:"latest,omitempty"` // migrate lint: --latest N (0 = 1)
 }
 
 func stmtsFor(c Case) [][]string {
@@ -151,7 +153,11 @@ func checkCase(c Case) (Outcome, error) {
 	switch c.Cmd {
 	case "migrate-diff", "migrate-validate", "migrate-lint":
 		for f, fs := range stmts {
-			sb.WriteFile(fmt.Sprintf("m/%d_f.sql", f+1), strings.Join(fs, ";\n")+";\n")
+			hdr := ""
+			if c.Ckpt == f+1 {
+				hdr = "-- atlas:checkpoint\n\n"
+			}
+			sb.WriteFile(fmt.Sprintf("m/%d_f.sql", f+1), hdr+strings.Join(fs, ";\n")+";\n")
 		}
 		if r := sb.Run("migrate", "hash", "--dir", "file://m"); r.Code != 0 {
 			return out, fmt.Errorf("harness: %v", r)
@@ -163,7 +169,7 @@ func checkCase(c Case) (Outcome, error) {
 		case "migrate-validate":
 			args = []string{"migrate", "validate", "--dir", "file://m", "--dev-url", devURL}
 		default:
-			args = []string{"migrate", "lint", "--dir", "file://m", "--dev-url", devURL, "--latest", "1"}
+			args = []string{"migrate", "lint", "--dir", "file://m", "--dev-url", devURL, "--latest", fmt.Sprint(max(c.Latest, 1))}
 		}
 	case "schema-apply":
 		var all []string
@@ -243,7 +249,14 @@ func checkCase(c Case) (Outcome, error) {
 		if devAfter != devBefore {
 			return out, fmt.Errorf("%s (exit %d, failing statement index %d) did not hand the dev database back empty:\n%s\n%v", c.Cmd, r.Code, c.FailAt, devAfter, r)
 		}
-		if c.FailAt >= 0 && c.FailAt < total && r.Code == 0 && c.Cmd != "migrate-lint" {
+		// a statement in a file that precedes the checkpoint is never replayed
+		skipped := 0
+		if c.Ckpt > 1 && (c.Cmd == "migrate-diff" || c.Cmd == "migrate-validate") {
+			for f := 0; f < c.Ckpt-1 && f < len(stmts); f++ {
+				skipped += len(stmts[f])
+			}
+		}
+		if c.FailAt >= skipped && c.FailAt < total && r.Code == 0 && c.Cmd != "migrate-lint" {
 			return out, fmt.Errorf("harness: %s was expected to fail at statement %d: %v", c.Cmd, c.FailAt, r)
 		}
 	}
